@@ -44,7 +44,7 @@ def mutate(rng, fr, prec=None):
     """one mutation of a copy; returns (frame, kind, detail)"""
     g = copy.deepcopy(fr)
     kinds = ['none', 'value', 'value-small', 'value-within', 'value-beyond', 'name', 'dtype', 'position', 'rows',
-             'extra', 'drop']
+             'extra', 'drop', 'row-filtered-out', 'null-in-condition-column']
     kind = rng.choice(kinds)
     if kind in ('value-within', 'value-beyond'):
         # the reference cell is put on the grid of the precision, the actual one 0.2 / 0.7 grid steps above it
@@ -98,6 +98,26 @@ def mutate(rng, fr, prec=None):
         if c['cells'][ri] == v:
             return g, 'none', None
         return g, kind, (c['name'], ri)
+    if kind in ('row-filtered-out', 'null-in-condition-column'):
+        # (meant for comparisons with condition = first column not null)
+        c0 = g['cols'][0]
+        if c0['fam'] not in cx.NULLABLE or c0['fam'] in ('category', 'category-unused'):
+            return g, 'none', None
+        if kind == 'row-filtered-out':
+            # an extra actual row that the condition removes again: the frames agree after filtering
+            for c in g['cols']:
+                c['cells'] = c['cells'] + [None if c is c0 else (c['cells'][-1] if c['cells'] else None)]
+            if g['nrows'] and any(c['cells'][-1] is None and c['fam'] not in cx.NULLABLE for c in g['cols']):
+                return copy.deepcopy(fr), 'none', None
+            if g['nrows'] == 0 and any(c['fam'] not in cx.NULLABLE for c in g['cols']):
+                return copy.deepcopy(fr), 'none', None
+            g['nrows'] += 1
+            return g, kind, None
+        nn = [i for i, v in enumerate(c0['cells']) if v is not None]
+        if not nn:
+            return g, 'none', None
+        c0['cells'][rng.choice(nn)] = None      # one row fewer survives the condition on the actual side
+        return g, kind, None
     if kind == 'name':
         c = rng.choice(g['cols'])
         old = c['name']
@@ -206,7 +226,8 @@ class C05(core.Prop):
         return {'kind': 'pair', 'ref': ref, 'act': act, 'mut': kind, 'detail': detail,
                 'check_data': flag(), 'check_types': flag(), 'check_order': flag(), 'check_extra_cols': flag(),
                 'sortby': rng.choice([None, None, None, [ref['cols'][0]['name']]]),
-                'condition': rng.choice([None, None, None, 'first-col-notnull']),
+                'condition': 'first-col-notnull' if kind in ('row-filtered-out', 'null-in-condition-column') and rng.random() < 0.8
+                else rng.choice([None, None, None, 'first-col-notnull']),
                 'precision': precision,
                 'type_matching': rng.choice(LEVELS),
                 'entry': rng.choice(['memory', 'memory', 'parquet', 'csv'])}
@@ -460,16 +481,28 @@ class C05(core.Prop):
             o2 = [c for c in rn if c in co and c in acol]
             if o1 != o2:
                 return False
-        if case['sortby'] or case['condition']:
-            return None    # row selection / ordering: left to the passes-on-copy and failing-mutation clauses
-        if act['nrows'] != ref['nrows']:
+        if case['sortby']:
+            return None    # ordering: left to the passes-on-copy and failing-mutation clauses
+        keep_a = keep_r = None
+        if case['condition']:
+            # "the same number of rows after any condition": each frame is filtered by its own first reference column
+            first = ref['cols'][0]['name']
+            if first not in acol:
+                return None
+
+            def isnull(v):
+                return v is None or (isinstance(v, float) and math.isnan(v))
+            keep_a = [not isnull(v) for v in acol[first]['cells']]
+            keep_r = [not isnull(v) for v in rcol[first]['cells']]
+        sel = lambda cells, keep: cells if keep is None else [c for c, k in zip(cells, keep) if k]
+        if len(sel(list(range(act['nrows'])), keep_a)) != len(sel(list(range(ref['nrows'])), keep_r)):
             return False
         cd = self._resolved(case['check_data'], rn)
         prec = 6 if case['precision'] is None else case['precision']
         for c in cd:
             if c not in acol:
                 return False     # a column selected for the value check is missing
-            for x, y in zip(acol[c]['cells'], rcol[c]['cells']):
+            for x, y in zip(sel(acol[c]['cells'], keep_a), sel(rcol[c]['cells'], keep_r)):
                 if not cells_equal(x, y, prec):
                     return False
         return True
